@@ -500,3 +500,514 @@ Proof.
       eapply IH; [eapply step_inv; eassumption|eapply step_winv; eassumption|eapply step_tpair; eassumption|exact H]. }
   intros st H. eapply G; [apply Inv_init|apply WInv_init|apply TPair_init|exact H].
 Qed.
+
+(* ---------------------------------------------------------------- which goroutine runs what *)
+
+Definition thr_ok (th : tid) (j : instr) : Prop :=
+  match j with
+  | INcGet k _ => th = TR k
+  | INcChk k f ft own _ => th = TR k /\ own = (k, (if ft =? c_responseFrame then 1 else 0), f_id f)
+  | IRcvGet r => r_ft r = c_responseFrame -> th = TR (key_conn (r_own r)) /\ key_dir (r_own r) = 1
+  | IRcvChk r rk _ | IRcvEnq r rk =>
+      rk = rcv_key r /\ (r_ft r = c_responseFrame -> th = TR (key_conn (r_own r)) /\ key_dir (r_own r) = 1)
+  | _ => True
+  end.
+
+Lemma after_sent_thr : forall th r j, (r_ft r = c_responseFrame -> th = TR (key_conn (r_own r)) /\ key_dir (r_own r) = 1) ->
+  In j (after_sent r) -> thr_ok th j.
+Proof.
+  intros th r j H Hj. unfold after_sent in Hj. apply in_app_or in Hj. destruct Hj as [Hj|Hj].
+  - destruct (fin_of (r_f r)); [|contradiction]. destruct Hj as [<-|[]]. exact I.
+  - destruct (0 <? r_more r); [|contradiction]. destruct Hj as [<-|[<-|[]]]; [exact I|]. cbn. exact H.
+Qed.
+
+Definition kinds_ok (i j : instr) : Prop :=
+  (forall k f, j <> INcGet k f) /\ is_trun j = false /\
+  (is_tent j = true -> exists tm, i = ITimerRun tm) /\
+  (forall k f ft own g, j = INcChk k f ft own g -> i = INcGet k f) /\
+  (forall r rk g, j = IRcvChk r rk g -> i = IRcvGet r).
+
+Lemma kinds_triv : forall i j, is_trun j = false -> is_tent j = false ->
+  (forall k f, j <> INcGet k f) -> (forall k f ft own g, j <> INcChk k f ft own g) -> (forall r rk g, j <> IRcvChk r rk g) ->
+  kinds_ok i j.
+Proof.
+  intros i j B C D F G. unfold kinds_ok. repeat split; try assumption.
+  - intro X. rewrite C in X. discriminate.
+  - intros k f ft own g X. exfalso. eapply F. exact X.
+  - intros r rk g X. exfalso. eapply G. exact X.
+Qed.
+
+Lemma after_sent_kinds : forall i r j, In j (after_sent r) -> kinds_ok i j.
+Proof.
+  intros i r j Hj. unfold after_sent in Hj. apply in_app_or in Hj. destruct Hj as [Hj|Hj].
+  - destruct (fin_of (r_f r)); [|contradiction]. destruct Hj as [<-|[]]. apply kinds_triv; intros; try reflexivity; discriminate.
+  - destruct (0 <? r_more r); [|contradiction]. destruct Hj as [<-|[<-|[]]]; apply kinds_triv; intros; try reflexivity; discriminate.
+Qed.
+
+Ltac kt := apply kinds_triv; intros; try reflexivity; discriminate.
+
+Lemma pushed_kinds : forall cf st i room st1 pushed j, exec cf st i room = (st1, pushed) -> In j pushed -> kinds_ok i j.
+Proof.
+  intros cf st i room st1 pushed j H Hj. destruct i; cbn [exec] in H.
+  - destruct (e_start e =? 0); inversion H; subst; clear H; in_cases Hj; kt.
+  - destruct (c_state (get_conn st k) =? c_connectionActive); inversion H; subst; clear H; in_cases Hj; kt.
+  - destruct (klookup (k, 0, f_id f) (items st)); [|destruct (e_dest e =? -1); [|destruct (e_dest e <? 0)]];
+      inversion H; subst; clear H; in_cases Hj; kt.
+  - destruct (c_state (get_conn st d) =? c_connectionActive); inversion H; subst; clear H; in_cases Hj; kt.
+  - unfold timer_new in H. cbn [fst snd] in H. inversion H; subst; clear H. in_cases Hj; kt.
+  - unfold timer_new in H. cbn [fst snd] in H. inversion H; subst; clear H. in_cases Hj; kt.
+  - inversion H; subst. contradiction.
+  - inversion H; subst. contradiction.
+  - destruct ((c_state (get_conn st k) =? c_connectionClosed) || negb room); inversion H; subst; contradiction.
+  - destruct (c_state (get_conn st k) =? c_connectionActive); inversion H; subst; contradiction.
+  - destruct (frameTypeFor (f_mt f)); [|inversion H; subst; contradiction].
+    match type of H with context [items_get ?a ?b ?cc] => destruct (items_get a b cc) as [st' g] end.
+    inversion H; subst. destruct Hj as [<-|[]]. unfold kinds_ok. repeat split; try (intros; discriminate).
+    intros k0 f0 ft0 own0 g0 X. inversion X. reflexivity.
+  - destruct g as [[it stopped]|]; [|inversion H; subst; contradiction].
+    destruct (it_tomb it || (fin_of f && negb stopped)); inversion H; subst; [contradiction|]. in_cases Hj; kt.
+  - match type of H with context [items_get ?a ?b ?cc] => destruct (items_get a b cc) as [st' g] end.
+    inversion H; subst. destruct Hj as [<-|[]]. unfold kinds_ok. repeat split; try (intros; discriminate).
+    intros r0 rk0 g0 X. inversion X. reflexivity.
+  - destruct g as [[it stopped]|].
+    + destruct (it_tomb it || (fin_of (r_f r) && negb stopped)); inversion H; subst; clear H.
+      * eapply after_sent_kinds. exact Hj.
+      * apply in_app_or in Hj. destruct Hj as [Hj|[<-|[]]]; [in_cases Hj; kt|kt].
+    + inversion H; subst. in_cases Hj. kt.
+  - destruct room; inversion H; subst; clear H.
+    + apply in_app_or in Hj. destruct Hj as [Hj|Hj]; [in_cases Hj; kt|eapply after_sent_kinds; exact Hj].
+    + in_cases Hj; kt.
+  - destruct (items_get st t true) as [st' g]. destruct g as [[it [|]]|]; inversion H; subst; try contradiction.
+    destruct Hj as [<-|[]]. kt.
+  - destruct (items_entomb cf st t) as [st' g]. destruct g as [[it [|]]|]; inversion H; subst; try contradiction.
+    apply in_app_or in Hj. destruct Hj as [Hj|[<-|[]]]; [|kt].
+    destruct (match s with FromFail _ => it_orig it | FromTimeout o => o end); [|contradiction].
+    unfold orig_tail in Hj. destruct s; in_cases Hj; kt.
+  - destruct (items_delete st t) as [st' g]. destruct g as [[it [|]]|]; inversion H; subst; try contradiction.
+    in_cases Hj; kt.
+  - destruct (zlookup tm (timers st)) as [x0|]; [|inversion H; subst; contradiction].
+    destruct (tm_released x0); inversion H; subst; try contradiction. destruct Hj as [<-|[]].
+    unfold kinds_ok. repeat split; try (intros; discriminate). intros _. exists tm. reflexivity.
+Qed.
+
+Lemma pushed_thr : forall cf st th i room st1 pushed j, exec cf st i room = (st1, pushed) -> thr_ok th i ->
+  In j pushed -> thr_ok th j.
+Proof.
+  intros cf st th i room st1 pushed j H Hi Hj. destruct i; cbn [exec] in H.
+  - destruct (e_start e =? 0); inversion H; subst; clear H; in_cases Hj; exact I.
+  - destruct (c_state (get_conn st k) =? c_connectionActive); inversion H; subst; clear H; in_cases Hj; exact I.
+  - destruct (klookup (k, 0, f_id f) (items st)); [|destruct (e_dest e =? -1); [|destruct (e_dest e <? 0)]];
+      inversion H; subst; clear H; in_cases Hj; exact I.
+  - destruct (c_state (get_conn st d) =? c_connectionActive); inversion H; subst; clear H; in_cases Hj; exact I.
+  - unfold timer_new in H. cbn [fst snd] in H. inversion H; subst; clear H. in_cases Hj; exact I.
+  - unfold timer_new in H. cbn [fst snd] in H. inversion H; subst; clear H. in_cases Hj; try exact I.
+    cbn. intro X. discriminate.
+  - inversion H; subst. contradiction.
+  - inversion H; subst. contradiction.
+  - destruct ((c_state (get_conn st k) =? c_connectionClosed) || negb room); inversion H; subst; contradiction.
+  - destruct (c_state (get_conn st k) =? c_connectionActive); inversion H; subst; contradiction.
+  - destruct (frameTypeFor (f_mt f)); [|inversion H; subst; contradiction].
+    match type of H with context [items_get ?a ?b ?cc] => destruct (items_get a b cc) as [st' g] end.
+    inversion H; subst. destruct Hj as [<-|[]]. cbn in *. split; [exact Hi|reflexivity].
+  - destruct g as [[it stopped]|]; [|inversion H; subst; contradiction].
+    destruct (it_tomb it || (fin_of f && negb stopped)); inversion H; subst; [contradiction|]. cbn in Hi. destruct Hi as [-> ->].
+    in_cases Hj; try exact I. cbn. intros ->. rewrite Z.eqb_refl. cbn. split; reflexivity.
+  - match type of H with context [items_get ?a ?b ?cc] => destruct (items_get a b cc) as [st' g] end.
+    inversion H; subst. destruct Hj as [<-|[]]. cbn in *. split; [reflexivity|exact Hi].
+  - cbn in Hi. destruct Hi as [Hrk Hi]. destruct g as [[it stopped]|].
+    + destruct (it_tomb it || (fin_of (r_f r) && negb stopped)); inversion H; subst; clear H.
+      * eapply after_sent_thr; eassumption.
+      * apply in_app_or in Hj. destruct Hj as [Hj|[<-|[]]]; [in_cases Hj; exact I|]. cbn. split; [reflexivity|exact Hi].
+    + inversion H; subst. in_cases Hj. exact I.
+  - cbn in Hi. destruct Hi as [_ Hi]. destruct room; inversion H; subst; clear H.
+    + apply in_app_or in Hj. destruct Hj as [Hj|Hj]; [in_cases Hj; exact I|eapply after_sent_thr; eassumption].
+    + in_cases Hj; exact I.
+  - destruct (items_get st t true) as [st' g]. destruct g as [[it [|]]|]; inversion H; subst; try contradiction.
+    destruct Hj as [<-|[]]. exact I.
+  - destruct (items_entomb cf st t) as [st' g]. destruct g as [[it [|]]|]; inversion H; subst; try contradiction.
+    apply in_app_or in Hj. destruct Hj as [Hj|[<-|[]]]; [|exact I].
+    destruct (match s with FromFail _ => it_orig it | FromTimeout o => o end); [|contradiction].
+    unfold orig_tail in Hj. destruct s; in_cases Hj; exact I.
+  - destruct (items_delete st t) as [st' g]. destruct g as [[it [|]]|]; inversion H; subst; try contradiction.
+    in_cases Hj; exact I.
+  - destruct (zlookup tm (timers st)) as [x0|]; [|inversion H; subst; contradiction].
+    destruct (tm_released x0); inversion H; subst; try contradiction. destruct Hj as [<-|[]]. exact I.
+Qed.
+
+(* ---------------------------------------------------------------- readers in flight, fired timers *)
+
+Definition commit_ok (j : instr) : Prop :=
+  match j with
+  | INcChk _ f _ _ (Some (it, s)) => it_tomb it = false -> fin_of f = true -> s = true
+  | IRcvChk r _ (Some (it, s)) => it_tomb it = false -> fin_of (r_f r) = true -> s = true
+  | _ => True
+  end.
+
+Record FInv (st : state) (h : held) : Prop := {
+  f_thr : forall th code j, In (th, code) (threads st) -> In j code -> thr_ok th j;
+  f_fired : forall code t it, In (TT (it_tm it), code) (threads st) -> tt_pending code (it_tm it) t ->
+              In (t, it) (items st) -> it_tomb it = false -> In (TT (it_tm it), it_call it) h;
+  f_commit : forall th code j, In (th, code) (threads st) -> In j code -> commit_ok j;
+  f_own : forall th code j own tk ti c, In (th, code) (threads st) -> In j code -> flight j = Some (own, tk, ti, c) ->
+            exists it1, klookup own (items st) = Some it1 /\ it_tomb it1 = false /\ it_call it1 = c /\ it_dest it1 = tk /\ it_remap it1 = ti;
+  f_noadm : forall th code j own tk ti c, In (th, code) (threads st) -> In j code -> flight j = Some (own, tk, ti, c) ->
+            forall th2 code2 i f, In (th2, code2) (threads st) -> In i code2 -> adm_kf i = Some (tk, f) -> f_id f <> ti;
+  f_ncget : forall th code k f, In (th, code) (threads st) -> In (INcGet k f) code -> kind_of f <> None ->
+            f_id f < c_nextid (getc (conns st) k)
+}.
+
+Lemma FInv_init : FInv init [].
+Proof. constructor; cbn; intros; contradiction. Qed.
+
+Definition causal_step (st : state) (l : label) : bool :=
+  match l with
+  | LArrive d f _ => match kind_of f with Some _ => f_id f <? c_nextid (get_conn st d) | None => true end
+  | _ => true
+  end.
+
+Definition is_get (i : instr) : bool := match i with INcGet _ _ | IRcvGet _ => true | _ => false end.
+
+(* in a run without overlap a Get that has to stop the timer of a live item does stop it *)
+Lemma get_wins : forall st h th i rest t st2 it, Inv st -> TInv st -> HInv st h -> FInv st h ->
+  lookup tid_eqb th (threads st) = Some (i :: rest) -> is_get i = true ->
+  (forall c, In c (live_call st t) -> others_hold h th c = false) ->
+  items_get st t true = (st2, Some (it, false)) -> it_tomb it = false -> False.
+Proof.
+  intros st h th i rest t st2 it HI HT HH HF El Hg Hto E Hlive.
+  destruct (items_get_tspec _ _ _ _ _ HT E) as (_&_&_&Hm).
+  destruct (klookup t (items st)) as [it0|] eqn:Hl; [|destruct Hm as [Hm _]; discriminate].
+  destruct Hm as (x&Hx&Hk&[(Hs&_)|[(_&Hgg&_)|[(_&Hgg&_)|(_&Hgg&Hns&Hna&_)]]]); try discriminate.
+  inversion Hgg. subst it0.
+  pose proof (lookup_in key_eqb key_eqb_ok _ _ _ Hl) as Hin.
+  destruct (t_oblig _ HT _ _ Hin Hlive) as (y&Hy&[A|[(code&Hc&Hp)|(S&_)]]); rewrite Hx in Hy; inversion Hy; subst y.
+  - congruence.
+  - pose proof (f_fired _ _ HF _ _ _ Hc Hp Hin Hlive) as Hh.
+    assert (Hth : TT (it_tm it) = th).
+    { eapply others_hold_false; [|exact Hh]. apply Hto. apply live_call_in; assumption. }
+    subst th. pose proof (in_lookup tid_eqb tid_eqb_ok _ _ _ (inv_threads_nd _ HI) Hc) as Hl2. rewrite El in Hl2. inversion Hl2. subst code.
+    destruct Hp as [Hp|(o&r'&Hp)]; inversion Hp; subst i; discriminate.
+  - congruence.
+Qed.
+
+Lemma tt_pending_head : forall code tm t, tt_pending code tm t ->
+  exists j, In j code /\ (j = ITimerRun tm \/ exists o, j = IEntomb t (FromTimeout o)) /\ code <> [] /\
+            (j = ITimerRun tm -> code = [ITimerRun tm]).
+Proof.
+  intros code tm t [->|(o&r&->)].
+  - exists (ITimerRun tm). split; [left; reflexivity|]. split; [left; reflexivity|]. split; [discriminate|reflexivity].
+  - exists (IEntomb t (FromTimeout o)). split; [left; reflexivity|]. split; [right; exists o; reflexivity|]. split; [discriminate|discriminate].
+Qed.
+
+Lemma step_finv_LStep : forall cf st h th i rest room st1 pushed,
+  Inv st -> TInv st -> WInv st -> HInv st h -> Shape st -> TPair st -> FInv st h ->
+  lookup tid_eqb th (threads st) = Some (i :: rest) -> exec cf st i room = (st1, pushed) ->
+  no_overlap_step st h (LStep th room) = true ->
+  FInv (set_thread st1 th (pushed ++ rest)) (held_next st (LStep th room) (set_thread st1 th (pushed ++ rest)) h).
+Proof.
+  intros cf st h th i rest room st1 pushed HI HT HW HH HS HP HF El E Hno.
+  pose proof (lookup_in tid_eqb tid_eqb_ok _ _ _ El) as Hin0.
+  pose proof (exec_threads _ _ _ _ _ _ E) as Hth.
+  pose proof (exec_nextid _ _ _ _ _ _ E) as Hnid.
+  destruct (inv_code _ HI _ _ Hin0) as [Hfo Hsing]. inversion Hfo as [|? ? Hiok _]. subst.
+  assert (Hmono : forall k0, c_nextid (getc (conns st) k0) <= c_nextid (getc (conns st1) k0)).
+  { intro k0. rewrite Hnid. destruct i; try lia. pose proof (b2z_nonneg (k0 =? d)). lia. }
+  assert (Hhead : head_of st th = Some i) by (unfold head_of; rewrite El; reflexivity).
+  assert (Htouch : forall c, In c (touches_i st i) -> others_hold h th c = false).
+  { intros c Hc. unfold no_overlap_step in Hno. cbn [actor touches] in Hno. rewrite Hhead in Hno.
+    rewrite forallb_forall in Hno. apply negb_true_iff. apply Hno. exact Hc. }
+  assert (Hold : forall t it, In (t, it) (items st) -> klookup t (items st) = Some it).
+  { intros t it Hin. apply (in_lookup key_eqb key_eqb_ok); [apply (inv_items_nd _ HI)|exact Hin]. }
+  set (st' := set_thread st1 th (pushed ++ rest)).
+  assert (Hcode : forall th' code' j, In (th', code') (threads st') -> In j code' ->
+     (th' = th /\ code' = pushed ++ rest /\ In j pushed) \/ (exists code0, In (th', code0) (threads st) /\ In j code0 /\ (th' = th -> In j rest))).
+  { intros th' code' j Hin Hj. apply set_thread_in in Hin. destruct Hin as [[-> ->]|[Hne Hin]].
+    - apply in_app_or in Hj. destruct Hj as [Hj|Hj]; [left; repeat split; assumption|].
+      right. exists (i :: rest). split; [exact Hin0|]. split; [right; exact Hj|intros _; exact Hj].
+    - right. rewrite Hth in Hin. exists code'. split; [exact Hin|]. split; [exact Hj|]. intro Heq. contradiction. }
+  assert (Hkeep : forall th' c code', In (th', code') (threads st') -> code' <> [] -> In (th', c) h ->
+            In (th', c) (held_next st (LStep th room) st' h)).
+  { intros th' c code' Hin Hne Hh. destruct (eqb_dec tid_eqb tid_eqb_ok th' th) as [->|Hn].
+    - apply set_thread_in in Hin. destruct Hin as [[_ ->]|[Hx _]]; [|contradiction].
+      apply (held_next_self _ _ _ _ _ _ (pushed ++ rest)); [reflexivity| |left; exact Hh].
+      unfold st'. rewrite lookup_set_thread_self. destruct (pushed ++ rest); [contradiction|reflexivity].
+    - apply held_next_other; [exact Hh|cbn; congruence]. }
+  assert (Hholds : forall th' code0 j c, In (th', code0) (threads st) -> In j code0 -> oncall c j = true -> In (th', c) h).
+  { intros. eapply (h_code _ _ HH); eassumption. }
+  constructor.
+  - (* f_thr *)
+    intros th' code' j Hin Hj. destruct (Hcode _ _ _ Hin Hj) as [(->&_&Hp)|(code0&Hin1&Hj1&_)].
+    + eapply pushed_thr; [exact E| |exact Hp]. eapply (f_thr _ _ HF); [exact Hin0|left; reflexivity].
+    + eapply (f_thr _ _ HF); eassumption.
+  - (* f_fired *)
+    intros code' t it Hin Hp Hit Hlive. cbn [st' set_thread set_threads items] in Hit.
+    destruct (tt_pending_head _ _ _ Hp) as (j&Hj&Hjk&Hne&Hsingle).
+    destruct (exec_items_fields _ _ _ _ _ _ _ _ E Hit) as [(it0&Hi0&Hc&_&_&_&Htm&Htomb)|[(k&f&e&c&d&Hi&_&_&_&_&_&_&Htm)|(k&f&e&c&d&did&Hi&_&_&_&_&_&_&Htm)]].
+    + assert (Hl0 : it_tomb it0 = false) by (destruct (it_tomb it0); [rewrite Htomb in Hlive by reflexivity; discriminate|reflexivity]).
+      rewrite Hc, Htm in *.
+      destruct (Hcode _ _ _ Hin Hj) as [(Heq&Hc'&Hpj)|(code0&Hin1&Hj1&Hrest)].
+      * (* the timer goroutine itself stepped *)
+        destruct (pushed_kinds _ _ _ _ _ _ _ E Hpj) as (_&Htr&Hte&_).
+        destruct Hjk as [->|(o&->)]; [discriminate|]. destruct (Hte eq_refl) as [tm1 ->].
+        pose proof (t_code _ HT _ _ Hin0) as Htc. cbn in Htc. destruct Htc as (_&Hthq&Hr&_). subst rest.
+        rewrite <- Heq in Hthq. inversion Hthq. subst tm1.
+        eapply Hkeep; [exact Hin|exact Hne|].
+        eapply (f_fired _ _ HF); [rewrite Heq; exact Hin0|left; reflexivity|exact Hi0|exact Hl0].
+      * destruct (eqb_dec tid_eqb tid_eqb_ok (TT (it_tm it0)) th) as [Heq|Hn].
+        -- exfalso. specialize (Hrest Heq). pose proof (t_code _ HT _ _ Hin0) as Htc. cbn in Htc. destruct Htc as [Hr _].
+           destruct (Hr _ Hrest) as [A B]. destruct Hjk as [->|(o&->)]; discriminate.
+        -- assert (Hc0 : code0 = code').
+           { apply set_thread_in in Hin. destruct Hin as [[Hx _]|[_ Hin]]; [contradiction|]. rewrite Hth in Hin.
+             pose proof (in_lookup tid_eqb tid_eqb_ok _ _ _ (inv_threads_nd _ HI) Hin) as L1.
+             pose proof (in_lookup tid_eqb tid_eqb_ok _ _ _ (inv_threads_nd _ HI) Hin1) as L2. congruence. }
+           subst code0. eapply Hkeep; [exact Hin|exact Hne|]. eapply (f_fired _ _ HF); eassumption.
+    + (* a freshly added item: its timer is new, no goroutine of it exists *)
+      exfalso. subst i. rewrite Htm in *.
+      destruct (Hcode _ _ _ Hin Hj) as [(Heq&_&_)|(code0&Hin1&Hj1&_)].
+      * destruct (iok_adm _ _ _ _ (IAddDest k f e c d) k f eq_refl Hiok) as [Hk _]. congruence.
+      * pose proof (t_code _ HT _ _ Hin1) as Htc. destruct code0 as [|a r]; [contradiction|]. cbn in Htc. destruct Htc as [Hr Hm].
+        assert (Hbound : forall tm x, zlookup tm (timers st) = Some x -> tm < next_tm st) by (intros tm x Hx; apply (t_alloc _ HT _ _ Hx)).
+        destruct Hj1 as [->|Hj1].
+        -- destruct Hjk as [->|(o&->)].
+           ++ destruct Hm as (Hq&_&x&Hx&_). inversion Hq. pose proof (Hbound _ _ Hx). lia.
+           ++ destruct Hm as (tm0&x&Hq&Hx&_). inversion Hq. pose proof (Hbound _ _ Hx). lia.
+        -- destruct (Hr _ Hj1) as [A B]. destruct Hjk as [->|(o&->)]; discriminate.
+    + exfalso. subst i. rewrite Htm in *.
+      destruct (Hcode _ _ _ Hin Hj) as [(Heq&_&_)|(code0&Hin1&Hj1&_)].
+      * destruct (iok_adm _ _ _ _ (IAddOrig k f e c d did) k f eq_refl Hiok) as [Hk _]. congruence.
+      * pose proof (t_code _ HT _ _ Hin1) as Htc. destruct code0 as [|a r]; [contradiction|]. cbn in Htc. destruct Htc as [Hr Hm].
+        assert (Hbound : forall tm x, zlookup tm (timers st) = Some x -> tm < next_tm st) by (intros tm x Hx; apply (t_alloc _ HT _ _ Hx)).
+        destruct Hj1 as [->|Hj1].
+        -- destruct Hjk as [->|(o&->)].
+           ++ destruct Hm as (Hq&_&x&Hx&_). inversion Hq. pose proof (Hbound _ _ Hx). lia.
+           ++ destruct Hm as (tm0&x&Hq&Hx&_). inversion Hq. pose proof (Hbound _ _ Hx). lia.
+        -- destruct (Hr _ Hj1) as [A B]. destruct Hjk as [->|(o&->)]; discriminate.
+  - (* f_commit *)
+    intros th' code' j Hin Hj. destruct (Hcode _ _ _ Hin Hj) as [(->&_&Hp)|(code0&Hin1&Hj1&_)]; [|eapply (f_commit _ _ HF); eassumption].
+    destruct (pushed_kinds _ _ _ _ _ _ _ E Hp) as (_&_&_&Hnc&Hrc).
+    destruct j; try exact I.
+    + destruct g as [[it s]|]; [|exact I]. cbn. intros Hlive Hfin. specialize (Hnc _ _ _ _ _ eq_refl). subst i.
+      cbn [exec] in E. destruct (frameTypeFor (f_mt f)) as [ft0|] eqn:Eft; [|inversion E; subst; contradiction].
+      rewrite Hfin in E.
+      match type of E with context [items_get ?a ?b ?cc] => destruct (items_get a b cc) as [st2 g2] eqn:Eg end.
+      inversion E. subst st1 pushed. destruct Hp as [Hp|[]]. inversion Hp. subst ft0 own g2.
+      destruct s; [reflexivity|]. exfalso.
+      eapply (get_wins st h th); try eassumption; [reflexivity|].
+      intros c Hc. apply Htouch. cbn [touches_i gets_i]. unfold nc_key. rewrite Eft. exact Hc.
+    + destruct g as [[it s]|]; [|exact I]. cbn. intros Hlive Hfin. specialize (Hrc _ _ _ eq_refl). subst i.
+      cbn [exec] in E. rewrite Hfin in E.
+      match type of E with context [items_get ?a ?b ?cc] => destruct (items_get a b cc) as [st2 g2] eqn:Eg end.
+      inversion E. subst st1 pushed. destruct Hp as [Hp|[]]. inversion Hp. subst rk g2.
+      destruct s; [reflexivity|]. exfalso.
+      eapply (get_wins st h th); try eassumption; reflexivity.
+  - (* f_own *)
+    intros th' code' j own tk ti c Hin Hj Hfl. cbn [st' set_thread set_threads items].
+    assert (Hpersist : forall it1, klookup own (items st) = Some it1 -> it_tomb it1 = false -> it_call it1 = c ->
+              (forall thj code0, In (thj, code0) (threads st) -> In j code0 -> (thj = th -> In j rest) -> True) ->
+              (exists thj code0, In (thj, code0) (threads st) /\ In j code0 /\ (thj = th -> In j rest)) \/ flight i <> None ->
+              klookup own (items st1) = Some it1).
+    { intros it1 Hl1 Hlive1 Hcall1 _ Hwho.
+      destruct (exec_items_keep _ _ _ _ _ _ _ _ E Hl1) as [Hk|[(s&Hi)|[Hi|[(k&f&e&c0&d&Hi&Ht)|(k&f&e&c0&d&did&Hi&Ht)]]]]; [exact Hk| | | |].
+      - exfalso. subst i. destruct Hwho as [(thj&code0&Hinj&Hjj&Hrest)|Hfi]; [|apply Hfi; reflexivity].
+        assert (Hhj : In (thj, c) h) by (eapply Hholds; [exact Hinj|exact Hjj|eapply flight_oncall; exact Hfl]).
+        assert (Heq : thj = th).
+        { eapply others_hold_false; [|exact Hhj]. apply Htouch. cbn [touches_i]. rewrite <- Hcall1. apply live_call_in; assumption. }
+        destruct (shape_head _ _ (HS _ _ Hin0)) as (_&_&Hq). specialize (Hq eq_refl). rewrite forallb_forall in Hq.
+        rewrite (quiet_flight _ (Hq _ (Hrest Heq))) in Hfl. discriminate.
+      - exfalso. subst i. destruct Hwho as [(thj&code0&Hinj&Hjj&Hrest)|Hfi]; [|apply Hfi; reflexivity].
+        assert (Hhj : In (thj, c) h) by (eapply Hholds; [exact Hinj|exact Hjj|eapply flight_oncall; exact Hfl]).
+        assert (Heq : thj = th).
+        { eapply others_hold_false; [|exact Hhj]. apply Htouch. cbn [touches_i]. rewrite <- Hcall1. apply live_call_in; assumption. }
+        destruct (shape_head _ _ (HS _ _ Hin0)) as (_&_&Hq). specialize (Hq eq_refl). rewrite forallb_forall in Hq.
+        rewrite (quiet_flight _ (Hq _ (Hrest Heq))) in Hfl. discriminate.
+      - exfalso. subst own. destruct (inv_keys _ HI (d, 1, c_nextid (get_conn st d))) as [[Hz _]|[_ Hlt]].
+        + left. apply (lookup_in key_eqb key_eqb_ok) in Hl1. apply (in_map fst) in Hl1. exact Hl1.
+        + cbn in Hz. discriminate.
+        + cbn in Hlt. rewrite get_conn_getc in Hlt. lia.
+      - exfalso. subst i own. destruct (iok_adm _ _ _ _ (IAddOrig k f e c0 d did) k f eq_refl Hiok) as [_ (_&Hfree&_)]. congruence. }
+    destruct (Hcode _ _ _ Hin Hj) as [(->&_&Hp)|(code0&Hin1&Hj1&Hrest)].
+    + destruct (pushed_flight _ _ _ _ _ _ _ _ E Hp Hfl) as [Hfi|(k&f&it&Hi&Hft&Hl&Hlive&Hx)].
+      * destruct (f_own _ _ HF _ _ _ _ _ _ _ Hin0 (or_introl eq_refl) Hfi) as (it1&Hl1&A&B&C&D).
+        exists it1. split; [|repeat split; assumption]. apply Hpersist; try assumption; [intros; exact I|]. right. congruence.
+      * inversion Hx. subst own tk ti c. exists it. split; [|repeat split; assumption].
+        destruct (exec_items_keep _ _ _ _ _ _ _ _ E Hl) as [Hk|[(s&Hi2)|[Hi2|[(k2&f2&e2&c2&d2&Hi2&_)|(k2&f2&e2&c2&d2&did2&Hi2&_)]]]]; [exact Hk| | | |]; subst i; discriminate.
+    + destruct (f_own _ _ HF _ _ _ _ _ _ _ Hin1 Hj1 Hfl) as (it1&Hl1&A&B&C&D).
+      exists it1. split; [|repeat split; assumption]. apply Hpersist; try assumption; [intros; exact I|]. left. exists th', code0. repeat split; assumption.
+  - (* f_noadm *)
+    intros th' code' j own tk ti c Hin Hj Hfl th2 code2 i2 f2 Hin2 Hj2 Ha Hfid.
+    assert (Hadm_old : exists thx codex, In (thx, codex) (threads st) /\ exists ix, In ix codex /\ adm_kf ix = Some (tk, f2)).
+    { destruct (Hcode _ _ _ Hin2 Hj2) as [(->&_&Hp2)|(code0&Hin1&Hj1&_)].
+      - destruct (pushed_adm _ _ _ _ _ _ _ _ _ E Hp2 Ha) as (Hai&_). exists th, (i :: rest). split; [exact Hin0|]. exists i. split; [left; reflexivity|exact Hai].
+      - exists th2, code0. split; [exact Hin1|]. exists i2. split; assumption. }
+    destruct Hadm_old as (thx&codex&Hinx&ix&Hjx&Hax).
+    destruct (Hcode _ _ _ Hin Hj) as [(->&_&Hp)|(code0&Hin1&Hj1&_)].
+    + destruct (pushed_flight _ _ _ _ _ _ _ _ E Hp Hfl) as [Hfi|(k&f&it&Hi&Hft&Hl&Hlive&Hx)].
+      * exact (f_noadm _ _ HF _ _ _ _ _ _ _ Hin0 (or_introl eq_refl) Hfi _ _ _ _ Hinx Hjx Hax Hfid).
+      * assert (Hfid' : f_id f2 = it_remap it) by (inversion Hx; congruence).
+        assert (Htk' : tk = it_dest it) by (inversion Hx; congruence).
+        subst i tk.
+        pose proof (lookup_in key_eqb key_eqb_ok _ _ _ Hl) as Hit.
+        destruct (tp1 _ HP _ _ _ _ _ _ Hit eq_refl Hinx Hjx Hax Hfid') as [e He]. subst ix.
+        assert (Hhx : In (thx, it_call it) h) by (eapply Hholds; [exact Hinx|exact Hjx|cbn; apply Z.eqb_refl]).
+        assert (Heq : thx = th).
+        { eapply others_hold_false; [|exact Hhx]. apply Htouch. cbn [touches_i gets_i]. unfold nc_key. rewrite Hft, Z.eqb_refl.
+          apply live_call_in; assumption. }
+        subst thx. pose proof (in_lookup tid_eqb tid_eqb_ok _ _ _ (inv_threads_nd _ HI) Hinx) as Lx. rewrite El in Lx. inversion Lx. subst codex.
+        pose proof (Hsing _ Hjx eq_refl) as Hs. inversion Hs.
+    + exact (f_noadm _ _ HF _ _ _ _ _ _ _ Hin1 Hj1 Hfl _ _ _ _ Hinx Hjx Hax Hfid).
+  - (* f_ncget *)
+    intros th' code' k f Hin Hj Hk. cbn [st' set_thread set_threads conns].
+    destruct (Hcode _ _ _ Hin Hj) as [(->&_&Hp)|(code0&Hin1&Hj1&_)].
+    + destruct (pushed_kinds _ _ _ _ _ _ _ E Hp) as (Hn&_). exfalso. eapply Hn. reflexivity.
+    + pose proof (f_ncget _ _ HF _ _ _ _ Hin1 Hj1 Hk). specialize (Hmono k). lia.
+Qed.
+
+Lemma FInv_ext : forall st st' h, FInv st h -> items st' = items st -> threads st' = threads st ->
+  (forall k, c_nextid (getc (conns st') k) = c_nextid (getc (conns st) k)) -> FInv st' h.
+Proof.
+  intros st st' h HF Hi Ht Hc. constructor; rewrite ?Hi, ?Ht.
+  - apply (f_thr _ _ HF).
+  - apply (f_fired _ _ HF).
+  - apply (f_commit _ _ HF).
+  - apply (f_own _ _ HF).
+  - apply (f_noadm _ _ HF).
+  - intros th code k f Hin Hj Hk. rewrite Hc. eapply (f_ncget _ _ HF); eassumption.
+Qed.
+
+Lemma flight_seen : forall st th code j own tk ti c, WInv st -> In (th, code) (threads st) -> In j code ->
+  flight j = Some (own, tk, ti, c) -> In (tk, ti) (seen st).
+Proof.
+  intros st th code j own tk ti c HW Hin Hj Hfl. pose proof (w_code _ HW _ _ _ Hin Hj) as Hw.
+  destruct j; cbn in Hfl; try discriminate.
+  - destruct g as [[it s]|]; [|discriminate]. destruct ((ft =? c_responseFrame) && negb (it_tomb it)) eqn:Eb; [|discriminate].
+    apply andb_true_iff in Eb. destruct Eb as [E1 _]. apply Z.eqb_eq in E1. inversion Hfl. subst. cbn in Hw. destruct Hw as [_ Hw]. apply Hw. reflexivity.
+  - destruct (r_ft r =? c_responseFrame) eqn:E1; [|discriminate]. apply Z.eqb_eq in E1. inversion Hfl. subst. cbn in Hw. destruct Hw as (_&Hw&_). apply Hw. exact E1.
+  - destruct (r_ft r =? c_responseFrame) eqn:E1; [|discriminate]. apply Z.eqb_eq in E1. inversion Hfl. subst. cbn in Hw. destruct Hw as (_&Hw&_). apply Hw. exact E1.
+  - destruct (r_ft r =? c_responseFrame) eqn:E1; [|discriminate]. apply Z.eqb_eq in E1. inversion Hfl. subst. cbn in Hw. destruct Hw as (_&Hw&_). apply Hw. exact E1.
+Qed.
+
+Lemma step_finv : forall cf st h l st', Inv st -> TInv st -> WInv st -> HInv st h -> Shape st -> TPair st -> FInv st h ->
+  fresh_label st l = true -> no_overlap_step st h l = true -> causal_step st l = true ->
+  step cf st l = Some st' -> FInv st' (held_next st l st' h).
+Proof.
+  intros cf st h l st' HI HT HW HH HS HP HF Hfresh Hno Hcau H. pose proof H as Hstep. unfold step in H.
+  destruct (negb (panicked st =? 0)); [discriminate|].
+  destruct l as [k f e|th room|tm|t|k|k|k].
+  - (* LArrive *)
+    unfold held_next. cbn [actor].
+    destruct (lookup tid_eqb (TR k) (threads st)); [discriminate|].
+    destruct (relayRoute (f_mt f) (cf_cancel cf) =? 1); [|inversion H; subst; exact HF].
+    assert (G : forall st0 code0, items st0 = items st -> conns st0 = conns st -> threads st0 = threads st ->
+              (code0 = [INcGet k f] \/ (exists e0, code0 = [IStart k f e0] /\ ~ In (k, f_id f) (seen st))) ->
+              FInv (set_thread st0 (TR k) code0) h).
+    { intros st0 code0 Hi Hc Ht Hcode0.
+      assert (Hnew : forall th code j, In (th, code) (threads (set_thread st0 (TR k) code0)) -> In j code ->
+                (th = TR k /\ (j = INcGet k f \/ exists e0, j = IStart k f e0 /\ ~ In (k, f_id f) (seen st))) \/ (In (th, code) (threads st))).
+      { intros th code j Hin Hj. apply set_thread_in in Hin. destruct Hin as [[-> ->]|[_ Hin]]; [left|right; rewrite <- Ht; exact Hin].
+        split; [reflexivity|]. destruct Hcode0 as [->|(e0&->&Hns)]; destruct Hj as [<-|[]]; [left; reflexivity|right; exists e0; split; [reflexivity|exact Hns]]. }
+      constructor; cbn [set_thread set_threads items conns]; rewrite ?Hi, ?Hc.
+      - intros th code j Hin Hj. destruct (Hnew _ _ _ Hin Hj) as [(->&[->|(e0&->&_)])|Hold]; [reflexivity|exact I|eapply (f_thr _ _ HF); eassumption].
+      - intros code t it Hin Hp Hit Hlive. fold (threads (set_thread st0 (TR k) code0)) in Hin.
+        apply set_thread_in in Hin. destruct Hin as [[Hq _]|[_ Hin]]; [discriminate|]. rewrite Ht in Hin. eapply (f_fired _ _ HF); eassumption.
+      - intros th code j Hin Hj. destruct (Hnew _ _ _ Hin Hj) as [(->&[->|(e0&->&_)])|Hold]; [exact I|exact I|eapply (f_commit _ _ HF); eassumption].
+      - intros th code j own tk ti c Hin Hj Hfl. destruct (Hnew _ _ _ Hin Hj) as [(->&[->|(e0&->&_)])|Hold]; [discriminate|discriminate|eapply (f_own _ _ HF); eassumption].
+      - intros th code j own tk ti c Hin Hj Hfl th2 code2 i2 f2 Hin2 Hj2 Ha Hfid.
+        destruct (Hnew _ _ _ Hin Hj) as [(->&[->|(e0&->&_)])|Hold]; [discriminate|discriminate|].
+        destruct (Hnew _ _ _ Hin2 Hj2) as [(->&[->|(e0&->&Hns)])|Hold2]; [discriminate| |].
+        + assert (Hs : In (tk, ti) (seen st)) by (eapply flight_seen; eassumption).
+          cbn in Ha. inversion Ha. subst. apply Hns. exact Hs.
+        + exact (f_noadm _ _ HF _ _ _ _ _ _ _ Hold Hj Hfl _ _ _ _ Hold2 Hj2 Ha Hfid).
+      - intros th code k0 f0 Hin Hj Hk. destruct (Hnew _ _ _ Hin Hj) as [(->&[Heq|(e0&Heq&_)])|Hold]; [|discriminate|eapply (f_ncget _ _ HF); eassumption].
+        inversion Heq. subst k0 f0. cbn [causal_step] in Hcau. destruct (kind_of f); [|contradiction Hk; reflexivity].
+        apply Z.ltb_lt in Hcau. exact Hcau. }
+    destruct (f_mt f =? c_messageTypeCallReq) eqn:Emt; inversion H; subst; clear H.
+    + apply G; try reflexivity. right. exists e. split; [reflexivity|].
+      cbn [fresh_label] in Hfresh. rewrite Emt in Hfresh. cbn [andb] in Hfresh. apply negb_true_iff in Hfresh.
+      intro Hs. assert (Hex : existsb (fun p => (fst p =? k) && (snd p =? f_id f)) (seen st) = true).
+      { apply existsb_exists. exists (k, f_id f). split; [exact Hs|]. cbn. rewrite !Z.eqb_refl. reflexivity. }
+      congruence.
+    + apply G; try reflexivity. left. reflexivity.
+  - destruct (lookup tid_eqb th (threads st)) as [[|i rest]|] eqn:El; try discriminate.
+    destruct (exec cf st i room) as [st1 pushed] eqn:E. inversion H. subst st'.
+    eapply step_finv_LStep; eassumption.
+  - (* LFire *)
+    destruct (zlookup tm (timers st)) as [x|] eqn:Ex; [|discriminate].
+    destruct (tm_armed x && match lookup tid_eqb (TT tm) (threads st) with None => true | Some _ => false end); [|discriminate].
+    inversion H. subst st'. clear H.
+    match goal with |- FInv ?s _ => set (st' := s) end.
+    assert (Hacq : acquires st (LFire tm) = live_call st (tm_key x)).
+    { unfold acquires, touches. rewrite Ex. apply app_nil_r. }
+    assert (Hnew : forall th code j, In (th, code) (threads st') -> In j code ->
+              (th = TT tm /\ code = [ITimerRun tm] /\ j = ITimerRun tm) \/ (th <> TT tm /\ In (th, code) (threads st))).
+    { intros th code j Hin Hj. apply set_thread_in in Hin. destruct Hin as [[-> ->]|[Hne Hin]]; [left|right; split; assumption].
+      destruct Hj as [<-|[]]. repeat split. }
+    constructor; cbn [st' set_thread set_threads set_timers items conns].
+    + intros th code j Hin Hj. destruct (Hnew _ _ _ Hin Hj) as [(->&->&->)|[_ Hold]]; [exact I|eapply (f_thr _ _ HF); eassumption].
+    + intros code t it Hin Hp Hit Hlive. fold (threads st') in Hin.
+      destruct (tt_pending_head _ _ _ Hp) as (j&Hj&_&Hne&_).
+      destruct (Hnew _ _ _ Hin Hj) as [(Hq&->&->)|[Hne' Hold]].
+      * assert (Htm : it_tm it = tm) by (inversion Hq; reflexivity). clear Hq. rewrite Htm.
+        apply (held_next_self _ _ _ _ _ _ [ITimerRun tm]); [reflexivity| |].
+        { unfold st'. rewrite lookup_set_thread_self. reflexivity. }
+        right. rewrite Hacq. destruct (t_item _ HT _ _ Hit) as (y&Hy&Hk&_). rewrite Htm, Ex in Hy. inversion Hy. subst y.
+        rewrite Hk. apply live_call_in; [|exact Hlive]. apply (in_lookup key_eqb key_eqb_ok); [apply (inv_items_nd _ HI)|exact Hit].
+      * apply held_next_other; [|cbn; congruence]. eapply (f_fired _ _ HF); eassumption.
+    + intros th code j Hin Hj. destruct (Hnew _ _ _ Hin Hj) as [(->&->&->)|[_ Hold]]; [exact I|eapply (f_commit _ _ HF); eassumption].
+    + intros th code j own tk ti c Hin Hj Hfl. destruct (Hnew _ _ _ Hin Hj) as [(->&->&->)|[_ Hold]]; [discriminate|eapply (f_own _ _ HF); eassumption].
+    + intros th code j own tk ti c Hin Hj Hfl th2 code2 i2 f2 Hin2 Hj2 Ha Hfid.
+      destruct (Hnew _ _ _ Hin Hj) as [(->&->&->)|[_ Hold]]; [discriminate|].
+      destruct (Hnew _ _ _ Hin2 Hj2) as [(->&->&->)|[_ Hold2]]; [discriminate|].
+      exact (f_noadm _ _ HF _ _ _ _ _ _ _ Hold Hj Hfl _ _ _ _ Hold2 Hj2 Ha Hfid).
+    + intros th code k f Hin Hj Hk. destruct (Hnew _ _ _ Hin Hj) as [(->&->&Hq)|[_ Hold]]; [discriminate|eapply (f_ncget _ _ HF); eassumption].
+  - (* LGc *)
+    unfold held_next. cbn [actor].
+    destruct (mem_key t (gcs st)) eqn:Emem; [|discriminate]. inversion H. subst.
+    destruct (items_delete (set_gcs st (remove_one t (gcs st))) t) as [st' g] eqn:E. cbn [fst].
+    apply items_delete_spec in E. cbn [set_gcs conns gcs threads cblog sent seen next_call items] in E.
+    destruct E as (Hc&_&A&_&_&_&_&D).
+    assert (Hsub : forall t0 it, In (t0, it) (items st') -> In (t0, it) (items st)).
+    { intros t0 it Hin. destruct (klookup t (items st)); destruct D as [_ Hi]; rewrite Hi in Hin; [|exact Hin].
+      apply (in_remove key_eqb key_eqb_ok) in Hin. tauto. }
+    constructor; rewrite ?A, ?Hc.
+    + apply (f_thr _ _ HF).
+    + intros code t0 it Hin Hp Hit. apply Hsub in Hit. eapply (f_fired _ _ HF); eassumption.
+    + apply (f_commit _ _ HF).
+    + intros th code j own tk ti c Hin Hj Hfl. destruct (f_own _ _ HF _ _ _ _ _ _ _ Hin Hj Hfl) as (it1&Hl1&Hlive&Rest).
+      exists it1. split; [|split; assumption].
+      assert (Hne : own <> t).
+      { intro Heq. subst own. unfold mem_key in Emem. apply existsb_exists in Emem. destruct Emem as (t'&Hin'&Heq). apply key_eqb_ok in Heq. subst t'.
+        rewrite (inv_gcs _ HI _ _ Hin' Hl1) in Hlive. discriminate. }
+      destruct (klookup t (items st)); destruct D as [_ Hi]; rewrite Hi; [|exact Hl1].
+      rewrite (lookup_remove_neq key_eqb key_eqb_ok) by exact Hne. exact Hl1.
+    + apply (f_noadm _ _ HF).
+    + apply (f_ncget _ _ HF).
+  - unfold held_next. cbn [actor]. destruct (c_state (get_conn st k) =? c_connectionActive); [|discriminate]. inversion H. subst.
+    eapply FInv_ext; [exact HF|reflexivity|reflexivity|]. apply nextid_put_same. reflexivity.
+  - unfold held_next. cbn [actor]. inversion H. subst. eapply FInv_ext; [exact HF|reflexivity|reflexivity|]. apply nextid_put_same. reflexivity.
+  - unfold held_next. cbn [actor]. match type of H with (if ?b then _ else _) = _ => destruct b end; [|discriminate]. inversion H. subst.
+    eapply FInv_ext; [exact HF|reflexivity|reflexivity|]. apply nextid_put_same. reflexivity.
+Qed.
+
+(* ---------------------------------------------------------------- all invariants of runs without overlap *)
+
+Record AllInv (st : state) (h : held) : Prop := {
+  a_inv : Inv st; a_tinv : TInv st; a_winv : WInv st; a_hinv : HInv st h; a_shape : Shape st;
+  a_tpair : TPair st; a_finv : FInv st h
+}.
+
+Lemma AllInv_init : AllInv init [].
+Proof.
+  constructor; [apply Inv_init|apply TInv_init|apply WInv_init|apply HInv_init|apply Shape_init|apply TPair_init|apply FInv_init].
+Qed.
+
+Lemma step_all : forall cf st h l st', AllInv st h -> fresh_label st l = true -> no_overlap_step st h l = true ->
+  causal_step st l = true -> step cf st l = Some st' -> AllInv st' (held_next st l st' h).
+Proof.
+  intros cf st h l st' [HI HT HW HH HS HP HF] Hf Hno Hc Hs. constructor.
+  - eapply step_inv; eassumption.
+  - eapply step_tinv; eassumption.
+  - eapply step_winv; eassumption.
+  - eapply step_hinv; eassumption.
+  - eapply step_shape; eassumption.
+  - eapply step_tpair; eassumption.
+  - eapply step_finv; eassumption.
+Qed.
